@@ -5,6 +5,7 @@ must be reset unconditionally at the per-file entry, be a memo keyed by all its 
 """
 import ast
 
+from checks import _gen
 from nvsa import effects, j2front, pyfront, reach
 from nvsa.j2front import xs
 from nvsa.report import AnalysisError
@@ -224,7 +225,7 @@ def _chk_limit_empty_lines(ctx, px, items):
     rname = reset[0].name
     problems = []
     for q in ("CodeGenerator._generate_code", "SupportGenerator._copy_header_using_line_pps"):
-        g = px.func(GEN_MOD, q)
+        g = _gen.render_view(px.func(GEN_MOD, q))
         calls = []
         lists = {ast.unparse(c.args[-1]) for c in ast.walk(g.node) if isinstance(c, ast.Call) and isinstance(c.func, ast.Attribute)
                  and c.func.attr in ("_generate_with_line_buffer", "_filter_and_write_line") and c.args}
